@@ -62,7 +62,8 @@ struct State {
   SaKnobs knobs;
   std::vector<BlockInfo> blocks;                    // by id (id = index)
   std::unordered_map<const void*, uint64_t> live;   // user pointer -> id (never iterated for output)
-  uint64_t live_bytes = 0, total_requests = 0, live_xor = 0;
+  uint64_t live_bytes = 0;
+  uint64_t t_requests[SA_MAX_TASKS] = {0}, t_live[SA_MAX_TASKS] = {0}, t_xor[SA_MAX_TASKS] = {0}, t_seq[SA_MAX_TASKS] = {0};
   OpWindow win[SA_MAX_TASKS];
   Arena arena[2];
   bool arenas_ready = false;
@@ -71,7 +72,8 @@ struct State {
   std::vector<uint64_t> arena_freed;                // ids of released arena blocks (for 0xDD verification)
 } S;
 
-OpWindow& W() { int t = sched_cur(); if (t < 0 || t >= SA_MAX_TASKS) t = 0; return S.win[t]; }
+int TK() { int t = sched_cur(); return (t < 0 || t >= SA_MAX_TASKS) ? 0 : t; }
+OpWindow& W() { return S.win[TK()]; }
 
 bool should_refuse(OpWindow& w, bool is_realloc, size_t size) {
   uint64_t r = w.requests;  // index of this request within the window
@@ -146,9 +148,9 @@ void backend_release(BlockInfo& b) {
 }
 
 uint64_t new_block(unsigned char* p, size_t n, uint8_t origin, int arena_idx) {
-  BlockInfo b; b.id = S.blocks.size(); b.user = p; b.size = n; b.live = true; b.origin = origin; b.task = sched_cur(); b.arena = arena_idx;
+  BlockInfo b; b.id = S.blocks.size(); b.user = p; b.size = n; b.live = true; b.origin = origin; b.task = TK(); b.arena = arena_idx; b.local = S.t_seq[b.task]++;
   S.blocks.push_back(b);
-  S.live[p] = b.id; S.live_xor ^= mix64(b.id + 1);
+  S.live[p] = b.id; S.t_live[b.task]++; S.t_xor[b.task] ^= mix64(b.local + 1);
   S.live_bytes += n;
   return b.id;
 }
@@ -156,14 +158,14 @@ uint64_t new_block(unsigned char* p, size_t n, uint8_t origin, int arena_idx) {
 void* do_alloc(size_t n, uint8_t origin, bool is_realloc_req) {
   OpWindow& w = W();
   bool refuse = should_refuse(w, is_realloc_req, n);
-  w.requests++; S.total_requests++;
+  w.requests++; S.t_requests[TK()]++;
   if (is_realloc_req) { w.reallocs++; w.realloc_req++; } else w.mallocs++;
-  if (refuse) { w.refused++; if (w.first_refused == ~0ull) w.first_refused = w.requests - 1; g_log.ev("refuse", n, origin, sched_cur()); return nullptr; }
+  if (refuse) { w.refused++; if (w.first_refused == ~0ull) w.first_refused = w.requests - 1; g_log.ev("refuse", n, origin, 0); return nullptr; }
   int ai; unsigned char* p = backend_alloc(n, &ai);
-  if (!p) { w.refused++; sa_fired_toolarge++; g_log.ev("refuse-backend", n, origin, sched_cur()); return nullptr; }
+  if (!p) { w.refused++; sa_fired_toolarge++; g_log.ev("refuse-backend", n, origin, 0); return nullptr; }
   uint64_t id = new_block(p, n, origin, ai);
   w.allocated.push_back(id);
-  g_log.ev("alloc", id, n, sched_cur());
+  g_log.ev("alloc", S.blocks[id].local, n, 0);
   return p;
 }
 
@@ -180,7 +182,7 @@ void sa_reset(const SaKnobs& k) {
     else if (S.knobs.backend == BE_DIRECT) free(b.user);
     b.live = false;
   }
-  S.blocks.clear(); S.live.clear(); S.live_bytes = 0; S.live_xor = 0; S.total_requests = 0; S.arena_freed.clear();
+  S.blocks.clear(); S.live.clear(); S.live_bytes = 0; for (int i = 0; i < SA_MAX_TASKS; i++) S.t_requests[i] = S.t_live[i] = S.t_xor[i] = S.t_seq[i] = 0; S.arena_freed.clear();
   for (auto& w : S.win) w = OpWindow();
   S.knobs = k;
   if (k.backend == BE_ARENA) {
@@ -201,8 +203,9 @@ OpWindow& sa_window() { return W(); }
 
 uint64_t sa_live_count() { return S.live.size(); }
 uint64_t sa_live_bytes() { return S.live_bytes; }
-uint64_t sa_live_sig() { return hash_comb(S.live.size(), S.live_xor); }
-uint64_t sa_total_requests() { return S.total_requests; }
+uint64_t sa_live_sig() { int t = TK(); return hash_comb(S.t_live[t], S.t_xor[t]); }
+uint64_t sa_live_count_mine() { return g_task_mode ? S.t_live[TK()] : S.live.size(); }
+uint64_t sa_total_requests() { if (g_task_mode) return S.t_requests[TK()]; uint64_t t = 0; for (int i = 0; i < SA_MAX_TASKS; i++) t += S.t_requests[i]; return t; }
 const BlockInfo* sa_find(const void* p) { auto it = S.live.find(p); return it == S.live.end() ? nullptr : &S.blocks[it->second]; }
 const BlockInfo* sa_find_containing(const void* p) {
   for (auto& b : S.blocks) if (b.live && (const unsigned char*)p >= b.user && (const unsigned char*)p < b.user + (b.size ? b.size : 1)) return &b;
@@ -220,15 +223,15 @@ void* sa_client_malloc(size_t n) {
   int ai; unsigned char* p = backend_alloc(n, &ai);
   if (!p) { fprintf(stderr, "HARNESS: client allocation of %zu failed\n", n); _exit(2); }
   uint64_t id = new_block(p, n, 2, ai);
-  g_log.ev("client-alloc", id, n);
+  g_log.ev("client-alloc", S.blocks[id].local, n);
   return p;
 }
 void sa_client_free(void* p) {
   auto it = S.live.find(p);
   if (it == S.live.end()) { fprintf(stderr, "HARNESS: client free of unknown pointer\n"); _exit(2); }
   BlockInfo& b = S.blocks[it->second];
-  S.live.erase(it); S.live_bytes -= b.size; b.live = false; S.live_xor ^= mix64(b.id + 1);
-  g_log.ev("client-free", b.id);
+  S.live.erase(it); S.live_bytes -= b.size; b.live = false; S.t_live[b.task]--; S.t_xor[b.task] ^= mix64(b.local + 1);
+  g_log.ev("client-free", b.local);
   backend_release(b);
 }
 
@@ -275,13 +278,13 @@ void* sim_realloc(void* ptr, size_t n) {
     const BlockInfo* in = sa_find_containing(ptr);
     fail("C13,C04", in ? "alloc:realloc-interior-pointer" : "alloc:realloc-unknown-pointer",
          fmt("realloc(%s, %zu): pointer is not a live block issued by the installed allocator", in ? "interior" : "unknown", n));
-    w.requests++; S.total_requests++; w.reallocs++; w.realloc_req++; w.refused++;
+    w.requests++; S.t_requests[TK()]++; w.reallocs++; w.realloc_req++; w.refused++;
     return nullptr;
   }
   uint64_t oid = it->second;
   bool refuse = should_refuse(w, true, n);
-  w.requests++; S.total_requests++; w.reallocs++; w.realloc_req++;
-  if (refuse) { w.refused++; if (w.first_refused == ~0ull) w.first_refused = w.requests - 1; g_log.ev("refuse-realloc", oid, n, sched_cur()); return nullptr; }
+  w.requests++; S.t_requests[TK()]++; w.reallocs++; w.realloc_req++;
+  if (refuse) { w.refused++; if (w.first_refused == ~0ull) w.first_refused = w.requests - 1; g_log.ev("refuse-realloc", S.blocks[oid].local, n, 0); return nullptr; }
   BlockInfo old = S.blocks[oid];
   if (old.task != sched_cur() && sched_active()) fail("C17", "alloc:cross-task-realloc", fmt("task %d resized block #%llu obtained by task %d", sched_cur(), (unsigned long long)oid, old.task));
   if (S.knobs.backend == BE_DIRECT && S.knobs.realloc_mode == 1) {
@@ -289,21 +292,21 @@ void* sim_realloc(void* ptr, size_t n) {
     unsigned char* np = (unsigned char*)realloc(old.user, n);
     if (!np) { w.refused++; sa_fired_toolarge++; return nullptr; }
     if (n > old.size) memset(np + old.size, 0xAA, n - old.size);
-    S.live.erase(old.user); S.live_bytes -= old.size; S.blocks[oid].live = false; S.live_xor ^= mix64(oid + 1);
+    S.live.erase(old.user); S.live_bytes -= old.size; S.blocks[oid].live = false; S.t_live[old.task]--; S.t_xor[old.task] ^= mix64(old.local + 1);
     uint64_t nid = new_block(np, n, 1, -1);
     w.freed.push_back(oid); w.allocated.push_back(nid); w.moved.emplace_back(oid, nid);
-    g_log.ev("realloc", oid, nid, n);
+    g_log.ev("realloc", S.blocks[oid].local, S.blocks[nid].local, n);
     return np;
   }
   // move: new block, copy, release old
   int ai; unsigned char* np = backend_alloc(n, &ai);
   if (!np) { w.refused++; sa_fired_toolarge++; return nullptr; }
   memcpy(np, old.user, n < old.size ? n : old.size);
-  S.live.erase(old.user); S.live_bytes -= old.size; S.blocks[oid].live = false; S.live_xor ^= mix64(oid + 1);
+  S.live.erase(old.user); S.live_bytes -= old.size; S.blocks[oid].live = false; S.t_live[old.task]--; S.t_xor[old.task] ^= mix64(old.local + 1);
   backend_release(S.blocks[oid]);
   uint64_t nid = new_block(np, n, 1, ai);
   w.freed.push_back(oid); w.allocated.push_back(nid); w.moved.emplace_back(oid, nid);
-  g_log.ev("realloc", oid, nid, n);
+  g_log.ev("realloc", S.blocks[oid].local, S.blocks[nid].local, n);
   return np;
 }
 
@@ -324,9 +327,9 @@ void sim_free(void* ptr) {
   }
   BlockInfo& b = S.blocks[it->second];
   if (b.task != sched_cur() && sched_active() && b.origin != 2) fail("C17", "alloc:cross-task-release", fmt("task %d released block #%llu obtained by task %d", sched_cur(), (unsigned long long)b.id, b.task));
-  S.live.erase(it); S.live_bytes -= b.size; b.live = false; S.live_xor ^= mix64(b.id + 1);
+  S.live.erase(it); S.live_bytes -= b.size; b.live = false; S.t_live[b.task]--; S.t_xor[b.task] ^= mix64(b.local + 1);
   w.frees++; w.freed.push_back(b.id);
-  g_log.ev("free", b.id, b.size, sched_cur());
+  g_log.ev("free", b.local, b.size, 0);
   backend_release(b);
 }
 
